@@ -166,7 +166,11 @@ fn main() {
             // every edit also adds a new VALID field (Baz), so that applying ANY plan for the
             // edited program necessarily changes the directory
             const BAZ: &str = "export const Baz = iso(`\n  field Query.Baz @component {\n    world\n  }\n`)(() => null);\n";
-            let invalid: [(&str, String); 5] = [
+            let invalid: [(&str, String); 7] = [
+                // not invalid for this compiler (a project may hold no literal): skipped unless
+                // the compile reports an error, and then the directory must be untouched too
+                ("last literal removed", "export const nothing = 1;\n".to_string()),
+                ("source file emptied", String::new()),
                 ("syntax error", format!("{FOO}{BAZ}export const X = iso(`field Query.Bar @component {{ world `)(() => null);\n")),
                 ("undefined field", format!("{FOO}{BAZ}export const X = iso(`\n  field Query.Bar @component {{\n    nope\n  }}\n`)(() => null);\n")),
                 ("duplicate definition", format!("{FOO}{BAZ}export const X = iso(`\n  field Query.Foo @component {{\n    world\n  }}\n`)(() => null);\n")),
